@@ -95,7 +95,8 @@ PartTargetOf(cfg, st) ==   \* ms, rounded up
       mx == MaxOfSeq([i \in 1..Len(ps) |-> PartDur(ps[i])])
   IN CeilMs(cfg, mx)
 
-TargetOf(cfg, st) == MaxOfSeq([i \in 1..Len(st.win) |-> RoundSec(cfg, SegDur(st.win[i]))])
+\* muxer_stream.go targetDuration: the largest rounded EXTINF, at least 1
+TargetOf(cfg, st) == Max(1, MaxOfSeq([i \in 1..Len(st.win) |-> RoundSec(cfg, SegDur(st.win[i]))]))
 
 \* units of the stream's tracks buffered for the open part, drained into the finalized part
 DrainTracks(cfg, ms, s) ==
